@@ -223,7 +223,8 @@ func matchAll(re *value.Regex, subjects string) string {
 func execRx1(f []string) string {
 	switch f[0] {
 	case "tr":
-		if len(f) != 3 {
+		// an optional 4th field (the pattern's letters, for the Lean model) is ignored here
+		if len(f) != 3 && len(f) != 4 {
 			return "bad-op"
 		}
 		fl, ok := parseFlags(f[1])
